@@ -470,6 +470,28 @@ func runC16(tb stat.TB, c c16Case) {
 				inconclusive("pipe connection not served")
 				break
 			}
+			if st.Write {
+				// first an update that enables rate limiting with generous limits, so that the strict limits below
+				// arrive as a change of configuration while limiting stays enabled
+				k0 := nextPolicy
+				nextPolicy++
+				p0 := c16Policy(k0)
+				p0.AllowedIPs = nil
+				p0.EnableRateLimiting = true
+				rc0 := absnfs.DefaultRateLimiterConfig()
+				rc0.PerConnectionRequestsPerSecond, rc0.PerConnectionBurstSize = 100000, 100000
+				rc0.GlobalRequestsPerSecond, rc0.PerIPRequestsPerSecond, rc0.PerIPBurstSize = 100000, 100000, 100000
+				p0.RateLimitConfig = &rc0
+				if err := s.e.NFS.UpdatePolicyOptions(p0); err != nil {
+					tb.Fatalf("harness: %v", err)
+				}
+				logf("rate limiting enabled with generous limits by P%d", k0)
+				if rp, err := call(); err != nil || rp.Stat != nfsx.MsgAccepted {
+					pc.Close()
+					inconclusive("pipe connection not served under generous limits")
+					break
+				}
+			}
 			// enable rate limiting: burst 1, 1 request/s per connection
 			k := nextPolicy
 			nextPolicy++
